@@ -23,6 +23,8 @@ type c16Case struct {
 	Extra   int    `json:"extra"`    // unrelated sockets open on the sender
 	Hops    int    `json:"hops"`     // hop budget of the sending socket: 0 default, 1: exactly the distance, 2: distance+1
 	CloseN  int    `json:"close_n"`  // that many of the unrelated sockets are closed at the very instant the notice arrives
+	Shared  bool   `json:"shared"`   // the sender uses a long-lived socket of its node (shared by all such cases of the run) with a fresh subscription
+	EndSub  bool   `json:"end_sub"`  // the sender gives up its subscription at the very instant the notice arrives (what it then sees is not checked; what later senders see is)
 	Slow    bool   `json:"slow"`     // another application on the sender is slow to read its own notices while this case's socket is opened and used
 }
 
@@ -73,6 +75,8 @@ func genC16(seed uint64, tier string) any {
 			c.CloseN = r.Range(1, 4)
 		}
 		c.Slow = r.Bool(0.3)
+		c.EndSub = r.Bool(0.2)
+		c.Shared = r.Bool(0.4)
 		switch r.Intn(3) {
 		case 0:
 			c.DeltaUs = r.Range(1, 50)
@@ -131,6 +135,12 @@ func runC16(t *testing.T, planAny any, res *simnet.Result) {
 		}
 		// watchers: every socket that exists during a case listens for notices
 		kinds := map[string]int{}
+		sharedSock := map[string]netceptor.PacketConner{}
+		defer func() {
+			for _, pc := range sharedSock {
+				_ = pc.Close()
+			}
+		}()
 		for ci, c := range p.Cases {
 			if c.From >= p.N || c.To >= p.N {
 				continue
@@ -201,8 +211,19 @@ func runC16(t *testing.T, planAny any, res *simnet.Result) {
 						res.Add("fault_slow_notice_consumer", 1)
 					}
 				}
-				spc, err := src.Net().ListenPacket(fs)
-				if err != nil {
+				var spc netceptor.PacketConner
+				var err error
+				if c.Shared {
+					fs = "shr"
+					if spc = sharedSock[src.ID]; spc == nil {
+						if spc, err = src.Net().ListenPacket(fs); err == nil {
+							sharedSock[src.ID] = spc
+						}
+					}
+				} else {
+					spc, err = src.Net().ListenPacket(fs)
+				}
+				if err != nil || spc == nil {
 					cleanup()
 					continue
 				}
@@ -214,7 +235,9 @@ func runC16(t *testing.T, planAny any, res *simnet.Result) {
 					lpc, err = dst.Net().ListenPacket(c.Svc)
 					if err != nil {
 						close(sdone)
-						_ = spc.Close()
+						if !c.Shared {
+							_ = spc.Close()
+						}
 						cleanup()
 						continue
 					}
@@ -233,12 +256,35 @@ func runC16(t *testing.T, planAny any, res *simnet.Result) {
 					rules, _ := netceptor.ParseFirewallRules([]netceptor.FirewallRuleData{{"action": "drop", "toservice": c.Svc, "fromservice": fs}})
 					_ = dst.Net().AddFirewallRules(rules, true)
 				}
+				if c.Shared {
+					spc.SetHopsToLive(byte(k.MaxHops)) // (a budget set by an earlier case must not linger)
+				}
 				if hops := len(m.RoutePath(src.ID, dst.ID)) - 1; c.Hops > 0 && hops > 0 {
 					spc.SetHopsToLive(byte(hops + c.Hops - 1))
 					res.Add("probe_tight_hop_budget", 1)
 				}
 				payload := fmt.Sprintf("case-%d", ci)
 				t0 := w.Now()
+				sdoneClosed := false
+				var sdoneMu sync.Mutex
+				closeSdone := func() {
+					sdoneMu.Lock()
+					if !sdoneClosed {
+						sdoneClosed = true
+						close(sdone)
+					}
+					sdoneMu.Unlock()
+				}
+				if c.EndSub && (c.Kind == "unbound" || c.Kind == "closed-before") {
+					for k := 0; k < 3; k++ { // a few more datagrams, so that notices keep coming while the subscription ends
+						_, _ = spc.WriteTo([]byte("more"), src.Net().NewAddr(dst.ID, c.Svc))
+					}
+					go func() {
+						w.SleepUntil(t0 + 2*oneWay)
+						closeSdone()
+					}()
+					res.Add("fault_subscription_ended_during_notice", 1)
+				}
 				if c.CloseN > 0 && c.Kind != "local" {
 					// other sockets of the sender go away at the instant the answer comes in
 					for e := 0; e < c.CloseN && e < len(extras); e++ {
@@ -276,9 +322,11 @@ func runC16(t *testing.T, planAny any, res *simnet.Result) {
 				var notes []netceptor.UnreachableNotification
 				for {
 					select {
-					case n := <-unr:
-						notes = append(notes, n)
-						continue
+					case n, ok := <-unr:
+						if ok { // (closed once the subscription has ended)
+							notes = append(notes, n)
+							continue
+						}
 					default:
 					}
 					break
@@ -292,6 +340,8 @@ func runC16(t *testing.T, planAny any, res *simnet.Result) {
 					if len(notes) != 0 {
 						res.Violate("c16:local-notice", "local send produced notices %+v", notes)
 					}
+				case wantNotice && c.EndSub:
+					// nothing to check here; the cases that follow show whether the node still reports
 				case wantNotice:
 					if len(notes) != 1 || notes[0].Problem != netceptor.ProblemServiceUnknown || notes[0].FromNode != src.ID || notes[0].ToNode != dst.ID ||
 						notes[0].FromService != fs || notes[0].ToService != c.Svc || notes[0].ReceivedFromNode != dst.ID {
@@ -313,8 +363,10 @@ func runC16(t *testing.T, planAny any, res *simnet.Result) {
 				if c.Kind == "fw-drop" {
 					_ = dst.Net().AddFirewallRules(nil, true)
 				}
-				close(sdone)
-				_ = spc.Close()
+				closeSdone()
+				if !c.Shared {
+					_ = spc.Close()
+				}
 				if lpc != nil {
 					_ = lpc.Close()
 				}
